@@ -22,7 +22,11 @@ true branch, on every path before any solver / enumeration call (SMGen validates
 exception, see C29); (applicability) Factor.applies_to_trial is n >= start + 1 and (n - (start+1)) mod stride == 0
 for 1-based n, always True for non-derived factors, and its 0-based sibling in ContinuousFactorWindow.get_window_val
 tests idx < start / (idx - start) mod stride != 0 on the same {start, stride}; the window predicate is evaluated on
-per-position dictionaries (chunk_dict) exactly when width != 1, in generation and in the coverage report.
+per-position dictionaries (chunk_dict) exactly when width != 1, in generation and in the coverage report; the gate's
+verdict (show_errors) depends on the recorded errors only and leaves no state behind; (shift) the SAT encoding of a
+complex-window derivation shifts the window of the k-th applicable trial by t*stride + delta trials (delta = start offset in
+trials, not multiplied by the stride); (window) the implied-factor fill reads a window position only when its index is
+non-negative; (carry) a derived level rebuilt for weight desugaring keeps window width / stride / start and weight.
 """
 NOT_DECIDED = "that the predicates are evaluated on the right window for every start/width (BeforeStart arithmetic) and the level values themselves."
 
